@@ -870,7 +870,8 @@ namespace jsonpointer {
     {
         if (location.empty())
         {
-            root = std::forward<T>(value);
+            // The whole document always exists
+            ec = jsonpointer_errc::key_already_exists;
             return;
         }
         Json* current = std::addressof(root);
